@@ -579,8 +579,9 @@ def atom_words(text):
     return words
 
 
-def g_core(f, info):
-    """Gallina literal of f with every SMT atom kept as text: (SVar text, vars); vars = the atom's free variables
+def g_core(f, info, full=False):
+    """Gallina literal of f with every SMT atom kept as text: (SVar text, vars) — with full=True the atom is the
+    s-expression itself (sx) —; vars = the atom's free variables
     ordered by the first occurrence of their names as words of the text (SMTFormula.free_variables_ is built from
     a Python set: its order carries no information; SMTFormula.__eq__ ignores it)"""
     if isinstance(f, SMTFormula):
@@ -595,6 +596,8 @@ def g_core(f, info):
                     order.append(v)
         order += [v for v in fv if v not in order]
         info["atoms"] += 1
+        if full:
+            return f"(FSmt ({sx(f.formula, info['strs'], info['ops'])}, {g_list([g_var(v) for v in order])}))"
         return f"(FSmt (SVar {g_str(text)}, {g_list([g_var(v) for v in order])}))"
     if isinstance(f, (StructuralPredicateFormula, SemanticPredicateFormula)):
         c = "FSPred" if isinstance(f, StructuralPredicateFormula) else "FSemPred"
@@ -602,22 +605,22 @@ def g_core(f, info):
         return f"({c} {g_str(f.predicate.name)} {g_list([g_parg(a) for a in f.args])})"
     if isinstance(f, NegatedFormula):
         info["neg"] = info.get("neg", 0) + 1
-        return f"(FNot {g_core(f.args[0], info)})"
+        return f"(FNot {g_core(f.args[0], info, full)})"
     if isinstance(f, (ConjunctiveFormula, DisjunctiveFormula)):
         c = "FAnd" if isinstance(f, ConjunctiveFormula) else "FOr"
         info["conn"] += 1
-        return f"({c} {g_list([g_core(a, info) for a in f.args])})"
+        return f"({c} {g_list([g_core(a, info, full) for a in f.args])})"
     if isinstance(f, (ForallFormula, ExistsFormula)):
         c = "FForall" if isinstance(f, ForallFormula) else "FExists"
         info["quant"] += 1
         if isinstance(f.in_variable, DerivationTree):
             raise Unsupported("tree in-variable")
         return (f"({c} {g_var(f.bound_variable)} (InVar {g_var(f.in_variable)}) "
-                f"{g_mexpr(f.bind_expression, info)} {g_core(f.inner_formula, info)})")
+                f"{g_mexpr(f.bind_expression, info)} {g_core(f.inner_formula, info, full)})")
     if isinstance(f, (ForallIntFormula, ExistsIntFormula)):
         c = "FForallInt" if isinstance(f, ForallIntFormula) else "FExistsInt"
         info["numq"] += 1
-        return f"({c} {g_var(f.bound_variable)} {g_core(f.inner_formula, info)})"
+        return f"({c} {g_var(f.bound_variable)} {g_core(f.inner_formula, info, full)})"
     raise Unsupported(type(f).__name__)
 
 
@@ -679,6 +682,116 @@ def subformulas(f):
         yield from subformulas(f.inner_formula)
 
 
+def smt_atoms(f):
+    for x in subformulas(f):
+        if isinstance(x, SMTFormula) and not x.substitutions and not x.instantiated_variables:
+            yield x
+
+
+def atom_wrapper(a):
+    """a constraint that declares the free variables of the atom a and has a as its body"""
+    pre = ""
+    for v in sorted(a.free_variables(), key=lambda v: v.name):
+        if isinstance(v, Constant):
+            if v.name != "start":
+                raise Unsupported("constant")
+        elif v.n_type == Variable.NUMERIC_NTYPE:
+            pre += f"exists int {v.name}: "
+        else:
+            pre += f"forall {v.n_type} {v.name} in start: "
+    return pre + smt_expr_to_str(a.formula)
+
+
+def innermost(f):
+    while hasattr(f, "inner_formula"):
+        f = f.inner_formula
+    return f
+
+
+IMPORTS_FULL = "Outcome Unparse ParseCore ParseCoreFacts ParseCoreMore ParseCoreNary SmtRead SmtReadFacts"
+
+
+def full_and_atom_cases(run, full_cases, full_meta, srcs, h, known):
+    """stream `full`: on fragment members whose atoms are in wf_smt (decided in Coq: atoms_wfb), parse_full of the
+    printed text = AST of parse_isla of that text WITH the atoms as s-expressions = binl f (theorem C07_print_parse_full).
+    stream `atoms`: every distinct atom of the accepted sources / generated constraints: inside wf_smt (wf_smtb) the
+    model text is the implementation's text and read_sexpr of it = the Z3 expression parse_isla builds from it
+    (read inside a constraint that declares the atom's variables) = the atom (theorem C07_smt_print_read)"""
+    out = []
+    try:
+        members, dt1 = lib.coq_mismatches("c07f", IMPORTS_FULL, "fun c : cformula * str * option cformula => negb (atoms_wfb (fst (fst c)))",
+                                          full_cases, shard=60)
+        ok_def = ("fun c : cformula * str * option cformula => let '(f, t, g) := c in negb (atoms_wfb f) || "
+                  "match parse_full t, g with Some a, Some b => feqb a b && feqb b (binl f) | _, _ => false end")
+        bad, dt2 = lib.coq_mismatches("c07g", IMPORTS_FULL, ok_def, full_cases, shard=60)
+        h["full_stream"] = {"cases": len(full_cases), "atoms_in_wf_smt": len(members)}
+        for i in members:
+            run.count(("full", full_meta[i]["constraint_text"]), True)
+        out += [dict(full_meta[i], obligation="parse_full (SmtRead.v) <-> parse_isla on the core fragment, atoms read") for i in bad]
+    except RuntimeError as e:
+        run.violation({"kind": "correspondence-not-evaluable", "obligation": "SmtRead.v parse_full cases", "error": str(e)[-2000:]},
+                      found_input=False)
+        dt1 = dt2 = 0
+    # ---- atoms ----
+    seen, acases, ameta = set(), [], []
+    ah = {"distinct_atoms": 0, "recorded_class": 0, "wrapper_unsupported": 0}
+    for f, gname in srcs:
+        for a in smt_atoms(f):
+            try:
+                text = smt_expr_to_str(a.formula)
+            except Exception:
+                continue
+            if (text, gname) in seen:
+                continue
+            seen.add((text, gname))
+            inf = new_info()
+            try:
+                e = sx(a.formula, inf["strs"], inf["ops"])
+                w = atom_wrapper(a)
+            except Unsupported:
+                ah["wrapper_unsupported"] += 1
+                continue
+            ah["distinct_atoms"] += 1
+            if [k for k in classes(inf) if k in known]:
+                ah["recorded_class"] += 1
+                continue
+            o = outcome(parse_isla, w, GRAMMARS[gname], SP, SE)
+            back, why = "None", None
+            if o[0] == "ok":
+                b = innermost(o[1])
+                try:
+                    back = f"(Some {sx(b.formula, [], [])})" if isinstance(b, SMTFormula) else "None"
+                except Unsupported:
+                    back = "None"
+                if not isinstance(b, SMTFormula) or not b.formula.eq(a.formula):
+                    why = "re-read atom differs"
+            else:
+                why = f"reading raises {o[1]}"
+            acases.append(f"({e}, {g_str(text)}, {back})")
+            ameta.append({"atom_text": text, "wrapper": w, "impl_reread": why or "equal", "grammar": gname})
+    try:
+        amembers, dt3 = lib.coq_mismatches("c07h", IMPORTS_FULL, "fun c : sx * str * option sx => negb (wf_smtb (fst (fst c)))", acases, shard=150)
+        ok_def = ("fun c : sx * str * option sx => let '(e, t, g) := c in negb (wf_smtb e) || "
+                  "(str_eqb (smt_str e) t && match read_sexpr t, g with Some a, Some b => sx_eqb a b && sx_eqb b e | _, _ => false end)")
+        abad, dt4 = lib.coq_mismatches("c07i", IMPORTS_FULL, ok_def, acases, shard=150)
+        ah["evaluated"] = len(acases)
+        ah["in_wf_smt"] = len(amembers)
+        ah["outside_wf_smt_not_recorded"] = len(acases) - len(amembers)
+        ah["outside_examples"] = [ameta[i]["atom_text"] for i in range(len(acases)) if i not in set(amembers)][:6]
+        h["atom_stream"] = ah
+        for i in amembers:
+            run.count(("atom", ameta[i]["atom_text"]), "(" in ameta[i]["atom_text"][1:])
+            if ameta[i]["impl_reread"] != "equal":
+                run.violation({"kind": "an atom of the proved class wf_smt is not read back by the implementation",
+                               "witness": ameta[i]})
+        out += [dict(ameta[i], obligation="read_sexpr (SmtRead.v) <-> ISLa sexpr grammar + z3.parse_smt2_string on printed atoms") for i in abad]
+        run.cov["coq_seconds_full_atoms"] = round(dt1 + dt2 + dt3 + dt4, 1)
+    except RuntimeError as e:
+        run.violation({"kind": "correspondence-not-evaluable", "obligation": "SmtRead.v read_sexpr cases", "error": str(e)[-2000:]},
+                      found_input=False)
+    return out
+
+
 def core_cases(run, rng, n_gen, pool, hist, known):
     """stream `core`: for constraints of the fragment (decided in Coq: wf_coreb), parse_core of the printed text
     = canonical AST of parse_isla of that text = the constraint itself; the printed text = model text"""
@@ -708,7 +821,7 @@ def core_cases(run, rng, n_gen, pool, hist, known):
         run.violation({"kind": "correspondence-not-evaluable", "obligation": "ParseCore.v wf_coreb cases", "error": str(e)[-2000:]},
                       found_input=False)
         return []
-    cases, meta = [], []
+    cases, meta, full_cases, full_meta = [], [], [], []
     for i in infrag:
         f, origin, lit, text, gname = keep[i]
         # atoms are opaque for wf_core: a constraint whose ATOMS fall into a recorded class (string literal codec,
@@ -739,6 +852,12 @@ def core_cases(run, rng, n_gen, pool, hist, known):
             why = f"re-parse raises {o[1]}"
         cases.append(f"({lit}, {g_str(text)}, {back})")
         meta.append({"constraint_text": text, "origin": origin, "impl_reparse": why or "equal", "grammar": gname})
+        try:    # stream `full`: the same case with the atoms as s-expressions (SmtRead.v: parse_full)
+            back_full = f"(Some {g_core(o[1], new_info(), True)})" if o[0] == "ok" else "None"
+            full_cases.append(f"({g_core(f, new_info(), True)}, {g_str(text)}, {back_full})")
+            full_meta.append(meta[-1])
+        except Unsupported:
+            pass
         h["in_fragment"] += 1
         h["in_fragment_generated" if origin == "core-gen" else "in_fragment_from_parsed_sources"] += 1
         h["nary_connective"] = h.get("nary_connective", 0) + any(
@@ -760,7 +879,9 @@ def core_cases(run, rng, n_gen, pool, hist, known):
         bad, dt2 = lib.coq_mismatches("c07e", "Outcome Unparse ParseCore ParseCoreFacts ParseCoreMore ParseCoreNary",
                                       ok_def, cases, shard=60)
         run.cov["coq_seconds_core"] = round(dt1 + dt2, 1)
-        return [dict(meta[i], obligation="parse_core (ParseCore.v) <-> parse_isla on the core fragment") for i in bad]
+        out = [dict(meta[i], obligation="parse_core (ParseCore.v) <-> parse_isla on the core fragment") for i in bad]
+        out += full_and_atom_cases(run, full_cases, full_meta, [(k[0], k[4]) for k in keep], h, known)
+        return out
     except RuntimeError as e:
         run.violation({"kind": "correspondence-not-evaluable", "obligation": "ParseCore.v parse_core cases", "error": str(e)[-2000:]},
                       found_input=False)
@@ -932,6 +1053,7 @@ def run(run):
     run.cov["trusted_base"] = lib.TRUSTED_BASE_COMMON + [
         "the ANTLR parser / ISLaEmitter are modelled only for the core fragment (ParseCore.v: parse_core, tied by the stream `core` to parse_isla on constraints that the Coq checker wf_coreb accepts); outside it re-parsing is observed on the implementation (part ii), not proved",
         "core stream: atoms compared as printed text; their free-variable lists are ordered by first occurrence in the text on both sides (SMTFormula.free_variables_ comes from a Python set); constraints with a const header are skipped (parse_isla cannot read any const declaration)",
+        "streams `full` / `atoms`: read_sexpr (SmtRead.v) is an untyped reference reader of printed atoms (operator table, no sort check); it is tied to ISLa's sexpr grammar + z3.parse_smt2_string only on texts that smt_expr_to_str printed; an atom alone is re-read on the implementation inside a wrapper constraint `forall <T> v in start: ... ATOM` that declares its variables",
         "Z3 4.11.2 string codec (Z3_get_lstring, smt2 scanner, zstring escapes incl. sign extension of bytes >= 0x80) and the "
         "ANTLR STRING token are modelled in Unparse.v and tied by the literal cases of this run",
         "harness conversion of z3 expressions to the `sx` AST (same case order as smt_expr_to_str) and decode of as_string()",
